@@ -360,7 +360,7 @@ def after_write(ctx, count):
 
 
 def run(ctx):
-    ctx.check_proofs(["MPilot.Props.C08", "MPilot.Props.C08Defaults"])
+    ctx.check_proofs(["MPilot.Props.C08", "MPilot.Props.C08Defaults", "MPilot.Props.C08Inverse"])
     model = common.Model()
     orc = numeric.combine(oracle_mapping(ctx), oracle_counterpart(ctx))
     n = ctx.budget(24, 900)
